@@ -23,6 +23,7 @@ class Obs(object):
         self.err = None
         self.skip = False
         self.order = []   # pre-order ids
+        self.hooks = []   # composite user hooks: "ci<id>" / "ct<id>:<status>" (implementation only)
 
     @property
     def ok(self):
@@ -58,6 +59,8 @@ def parse_obs(lines):
             for t in l[1:].split():
                 k, v = t.split("=", 1)
                 o.W[k] = v
+        elif l.startswith("HK"):
+            o.hooks = l[2:].split()
         elif l.startswith("P"):
             for t in l[1:].split():
                 k, v = t.split("=")
@@ -315,6 +318,17 @@ class C01(BtProp):
         for o in obs:
             if not o.ok:
                 break
+            # a composite is a behaviour too: its own initialise() hook runs when it is entered while not RUNNING, never
+            # while it is RUNNING, and at most once per tick
+            if o.op.startswith("tick"):
+                seen_ci = set()
+                for h in o.hooks:
+                    if h.startswith("ci"):
+                        q = int(h[2:])
+                        if q in seen_ci or st_of(prev_o, q) == "R":
+                            out.append(viol("initialise-while-running", "composite %d: initialise() hook called %s"
+                                            % (q, "twice in one tick" if q in seen_ci else "while it was RUNNING"), leaf=q))
+                        seen_ci.add(q)
             T = [e for e in o.T if e[0] in "IUX" and sh.is_leaf(e[1])]
             allT = [e for e in o.T if e[0] in "IUXE"]
             j = 0
@@ -926,6 +940,15 @@ class C09(BtProp):
                 if any(st_of(o, x) == "R" for x in sh.subtree(c)):
                     out.append(viol("no-strand", "decorator %d finished %s with its child subtree RUNNING"
                                     % (d, Y.get(d))))
+        return out
+
+    def oracle(self, s, lines):
+        out = BtProp.oracle(self, s, lines)
+        if not s.meta.get("impl_only"):
+            # "every decorator's status is the documented function of its child's status" also for the decorators with
+            # memory (Retry, Repeat, Condition, Timeout, EternalGuard, OneShot): the reference of C10 is reused
+            from props import get
+            out += get("C10").check_history(Shape(scn_spec(s)), parse_obs(lines)) or []
         return out
 
     @staticmethod
